@@ -14,6 +14,7 @@ import (
 	"strconv"
 	"strings"
 	"sync"
+	"sync/atomic"
 	"time"
 
 	"verifsim/tape"
@@ -97,6 +98,10 @@ func seedFromEnv() uint64 {
 	return 1
 }
 
+// runHangLimit is how long one run may take before the worker gives up (runs take
+// milliseconds; the slowest, C20's race-detector children, have their own 2-minute watchdog).
+const runHangLimit = 6 * time.Minute
+
 type workLine struct {
 	Type  string          `json:"type"` // viol | stats | log
 	Viol  *Viol           `json:"viol,omitempty"`
@@ -127,15 +132,35 @@ func work(args []string) int {
 	deadline := time.Now().Add(time.Duration(c.BudgetS(*tier)) * time.Second)
 	n := c.Runs(*tier)
 	done := 0
+	// watchdog: evaluations through the harness are bounded by fuel; anything else that
+	// stops making progress (a front-end driven directly, the host blocking) ends the
+	// worker, which the driver reports as inconclusive (exit 2), never as a verdict
+	var curRun, curStart atomic.Int64
+	curRun.Store(-1)
+	go func() {
+		for {
+			time.Sleep(5 * time.Second)
+			if r := curRun.Load(); r >= 0 && time.Since(time.Unix(0, curStart.Load())) > runHangLimit {
+				fmt.Fprintf(os.Stderr, "INFRA: property %s seed %d run %d made no progress for %v\n", *prop, *seed, r, runHangLimit)
+				os.Exit(3)
+			}
+		}
+	}()
 	for run := *shard; run < n; run += *nshard {
 		if time.Now().After(deadline) {
 			break
 		}
+		curStart.Store(time.Now().UnixNano())
+		curRun.Store(int64(run))
 		vs := c.Run(*seed, uint64(run), nil, st, nil)
+		curRun.Store(-1)
 		done++
 		for i := range vs {
 			vs[i].Tier = *tier
 			enc.Encode(workLine{Type: "viol", Viol: &vs[i]})
+		}
+		if len(vs) > 0 {
+			out.Flush()
 		}
 	}
 	raw, _ := json.Marshal(st)
